@@ -9,6 +9,8 @@ From scrapli (import + ast):
   * default_desired_privilege_level of a constructed driver; the level named "configuration";
   * the on_open command list (by running <platform>_on_open against a recording stub);
   * the shape of `_abort_config` of the sync AND async driver classes (ast; both twins must agree);
+  * the REGISTER fact p_reg_keeps (ast of update_privilege_levels, register_configuration_session and every method of the
+    driver classes they call on self, transitively; sync AND async class): no assignment to `_current_priv_level`;
   * the ORDER fact p_reset_first (ast of `_process_acquire_priv` and of sync AND async `acquire_priv`): on the way from
     the head of acquire_priv's loop to the `_escalate` / `_deescalate` call the tracked level is assigned DUMMY_PRIV_LEVEL
     (in `_process_acquire_priv`, called before the step, or in the loop body before the step) and not assigned again.
@@ -221,6 +223,55 @@ def reset_order_fact():
     return facts[0]
 
 
+def _self_calls(fdef):
+    """names m of the calls self.m(...) inside a function"""
+    out = []
+    for n in ast.walk(fdef):
+        if isinstance(n, ast.Call) and isinstance(n.func, ast.Attribute) and isinstance(n.func.value, ast.Name) \
+                and n.func.value.id == "self" and n.func.attr not in out:
+            out.append(n.func.attr)
+    return out
+
+
+def register_keeps_fact(classes):
+    """p_reg_keeps: True iff none of update_privilege_levels, register_configuration_session (where the platform has one)
+    and the methods of the driver classes they call on self, transitively (_build_priv_graph,
+    _generate_comms_prompt_pattern, _create_configuration_session, ...), assigns self._current_priv_level — in the sync
+    AND the async class.  A recognised other shape (the only assignments are resets to DUMMY_PRIV_LEVEL) gives False;
+    anything else is reported as an untranslated shape (problem) and the fact is left True, so that the correspondence
+    and the oracle judge the runs.  returns (fact, problems, inspected method names)"""
+    problems, seen_all = [], []
+    fact = True
+    for cls in classes:
+        todo = ["update_privilege_levels"] + (["register_configuration_session"] if hasattr(cls, "register_configuration_session") else [])
+        seen = []
+        while todo:
+            name = todo.pop(0)
+            if name in seen:
+                continue
+            owner = None
+            for klass in cls.__mro__:
+                if name in klass.__dict__:
+                    owner = klass
+                    break
+            if owner is None or not (owner.__module__ or "").startswith("scrapli.driver"):
+                continue
+            if not inspect.isfunction(owner.__dict__[name]):
+                continue      # lru_cache wrappers (_determine_current_priv.cache_clear) and the like: not a method body
+            seen.append(name)
+            fdef = _fn_ast(cls, name)
+            kinds = _belief_assigns(fdef)
+            if kinds and all(k == "dummy" for k in kinds):
+                fact = False
+            elif kinds:
+                problems.append("%s.%s assigns _current_priv_level (shape not translated)" % (cls.__name__, name))
+            todo += _self_calls(fdef)
+        if "update_privilege_levels" not in seen:
+            raise GenError("%s: update_privilege_levels not found" % cls.__name__)
+        seen_all.append(seen)
+    return fact, problems, seen_all
+
+
 class _Rec:
     """recording stand-in for a connection, for the on_open functions"""
 
@@ -318,6 +369,10 @@ def platform_facts(plat):
         # keep the rest of the table (the exploration and the oracle need it); the broken tie is reported
         problems.append("%s: _abort_config not translated: %s" % (plat, e))
         sa = ("none",)
+    reg_keeps, rk_problems, rk_seen = register_keeps_fact((scls, acls))
+    problems += ["%s: %s" % (plat, m) for m in rk_problems]
+    if sessions and not all("register_configuration_session" in x and "_create_configuration_session" in x for x in rk_seen):
+        raise GenError("%s: register_configuration_session / _create_configuration_session not inspected: %r" % (plat, rk_seen))
     marker = sa[3] if sa[0] == "sess" else "config\\-s"
     for r, l in zip(rows, levels):
         r["sess"] = marker in l.pattern
@@ -367,7 +422,8 @@ def platform_facts(plat):
     return {"platform": plat, "levels": rows, "nbase": nbase, "default": lid[default], "cfg": lid["configuration"],
             "abort": abort, "abort_shape": list(sa), "open": open_lines, "dev": dev, "login": login, "regs": regs,
             "cands": cands, "level_ids": lid, "line_ids": dict(lines), "sessions": sessions,
-            "failed_when_contains": list(base.FAILED_WHEN_CONTAINS), "problems": problems}
+            "failed_when_contains": list(base.FAILED_WHEN_CONTAINS), "problems": problems,
+            "reg_keeps": reg_keeps, "reg_keeps_inspected": rk_seen}
 
 
 def coq_platform(f, reset_first=True):
@@ -378,9 +434,10 @@ def coq_platform(f, reset_first=True):
                    for r in f["levels"])
     dev = "; ".join("(%d, %d, %d)" % x for x in f["dev"])
     regs = "; ".join("[" + "; ".join(map(str, r)) + "]" for r in f["regs"])
-    return ("mkPlatform\n    [%s]\n    %d %d %d %s\n    [%s]\n    [%s]\n    [%s]\n    [%s]\n    [%s]\n    %s" % (
+    return ("mkPlatform\n    [%s]\n    %d %d %d %s\n    [%s]\n    [%s]\n    [%s]\n    [%s]\n    [%s]\n    %s %s" % (
         lv, f["nbase"], f["default"], f["cfg"], f["abort"], "; ".join(map(str, f["open"])), dev,
-        "; ".join(map(str, f["login"])), "; ".join(map(str, f["cands"])), regs, "true" if reset_first else "false"))
+        "; ".join(map(str, f["login"])), "; ".join(map(str, f["cands"])), regs, "true" if reset_first else "false",
+        "true" if f["reg_keeps"] else "false"))
 
 
 def generate(outdir):
@@ -397,13 +454,17 @@ def generate(outdir):
         out.append("Definition gen_%s : platform :=\n  %s.\n" % (short, coq_platform(f, reset_first)))
     out.append("(* ast: the belief is reset to DUMMY before the escalate / deescalate step of acquire_priv (sync and async) *)")
     out.append("Definition gen_reset_first : bool := %s.\n" % ("true" if reset_first else "false"))
+    out.append("(* ast: update_privilege_levels / register_configuration_session / _create_configuration_session and the methods they")
+    out.append("   call on self never assign _current_priv_level (sync and async classes of every platform) *)")
+    out.append("Definition gen_reg_keeps : bool := %s.\n" % ("true" if all(f["reg_keeps"] for f in facts) else "false"))
     out.append("Definition gen_platforms : list platform := [%s]." % "; ".join("gen_" + f["platform"].split("_")[1] for f in facts))
     text = "\n".join(out) + "\n"
     path = os.path.join(outdir, "Gen_NetDriver.v")
     if not os.path.exists(path) or open(path).read() != text:
         open(path, "w").write(text)
     info = {f["platform"]: {k: f[k] for k in ("level_ids", "line_ids", "nbase", "default", "cfg", "abort_shape", "open", "login",
-                                              "sessions", "failed_when_contains", "cands", "problems")}
+                                              "sessions", "failed_when_contains", "cands", "problems", "reg_keeps",
+                                              "reg_keeps_inspected")}
             for f in facts}
     for f in facts:
         info[f["platform"]]["levels"] = f["levels"]
